@@ -9,7 +9,7 @@
 //
 // ops (one per line):
 //
-//	reset n=<clients> [slow=1]              settle + close the previous clients, open n new ones (slow=1: clients that can be stalled)
+//	reset n=<clients> [slow=1] [extra=<k>]  settle + close the previous clients, open n new ones (slow=1: clients that can be stalled)
 //	stall c=<i> / resume c=<i>              the client stops / resumes reading its connection
 //	fault c=<i> n=<k> partial=<0|1>         the next k writes on the client's connection fail with a timeout net.Error (after half the packet if partial)
 //	req c=<i> to=<svc> r=<id>/<script> ...  one frame with one or more requests to service <svc> (0 gate-1, k chat-k)
@@ -22,6 +22,9 @@
 //	p<c>          push to client c                 P<c>x<n>      n pushes to client c
 //	p<c>b<bytes>  push with a payload padded by <bytes> rb<bytes>  response padded by <bytes>
 //	m             one PushMessageByIds to all      r             complete the request
+//	M             one PushMessageByIds to every connection of the front (reset extra=<k>: k unobserved connections
+//	              listed between the observed clients: client 0 first, client 1 at #256, client 2 at #257, the last client last)
+//	S             store a value in the session without pushing it (BackSession.Set: dirty)
 //	s<ms>         time.Sleep on the service        t<ms>c<c>x<n> timer after ms: n pushes to c
 //	w<c>x<n>      worker goroutine: n posted pushes W<c>x<n>     the same, the last post completes the request
 //	n<ms>         (back-end) make the front sleep ms inside its mailbox run
@@ -41,6 +44,7 @@ import (
 	"fmt"
 	"runtime"
 	"sort"
+	"net"
 	"strconv"
 	"strings"
 	"sync"
@@ -59,7 +63,10 @@ import (
 	"github.com/dfklegend/cell2/node/app"
 	"github.com/dfklegend/cell2/node/builtin/msgs"
 	"github.com/dfklegend/cell2/node/client/impls"
+	scs "github.com/dfklegend/cell2/node/client/session"
+	"github.com/dfklegend/cell2/node/client/impls/pomelo"
 	"github.com/dfklegend/cell2/node/service"
+	"github.com/dfklegend/cell2/pomelonet/server/session"
 	"github.com/dfklegend/cell2/pomelonet/common/conn/message"
 )
 
@@ -109,6 +116,7 @@ type Arg struct {
 type caseState struct {
 	mu      sync.Mutex
 	nets    []uint32          // client index -> net id
+	bcast   []uint32          // broadcast list: the observed clients spread among the extra (unobserved) connections
 	ctr     map[[3]int]int    // (svc, thr, client) -> next counter
 	nextThr [8]int            // per service: next worker id
 	workers []string          // log names of the workers spawned in this case
@@ -132,6 +140,12 @@ func (c *caseState) netOf(cl int) (uint32, bool) {
 		return 0, false
 	}
 	return c.nets[cl], true
+}
+
+func (c *caseState) bcastIds() []uint32 {
+	c.mu.Lock()
+	defer c.mu.Unlock()
+	return append([]uint32(nil), c.bcast...)
 }
 
 func (c *caseState) allNets() []uint32 {
@@ -197,7 +211,7 @@ func pair(s string, sep byte) (int, int) {
 }
 
 // interpret runs a script on the service goroutine.
-func interpret(ns *service.NodeService, svc int, script string, reqClient int, cb apientry.HandlerCBFunc) {
+func interpret(ns *service.NodeService, svc int, script string, reqClient int, cb apientry.HandlerCBFunc, sess scs.IServerSession) {
 	for _, a := range strings.Split(script, ",") {
 		if a == "" {
 			continue
@@ -220,6 +234,24 @@ func interpret(ns *service.NodeService, svc int, script string, reqClient int, c
 				node.Record(ns.Name, fmt.Sprintf("d%d.%dp", cl, tags[cl]))
 			}
 			app.PushMessageByIds(ns, "gate-1", nets, "t", &Multi{S: svc, N: tags})
+		case 'S':
+			// the handler stores something in the session WITHOUT pushing it (BackSession: marks it dirty)
+			if sess != nil {
+				sess.Set("note", cs.next(svc, 99, reqClient))
+			}
+		case 'M':
+			// broadcast: ONE PushMessageByIds to every connection of the front (observed clients + the extra ones)
+			ids := cs.bcastIds()
+			nets := cs.allNets()
+			if len(ids) == 0 {
+				ids = nets
+			}
+			tags := make([]int, len(nets))
+			for cl := range nets {
+				tags[cl] = cs.next(svc, 0, cl)
+				node.Record(ns.Name, fmt.Sprintf("d%d.%dp", cl, tags[cl]))
+			}
+			app.PushMessageByIds(ns, "gate-1", ids, "t", &Multi{S: svc, N: tags})
 		case 'r':
 			_, size := pair(a[1:], 'b')
 			direct(ns, svc, reqClient, "r", cb, size)
@@ -278,7 +310,7 @@ type Zoo struct {
 
 func (e *Zoo) Run(ctx *impls.HandlerContext, a *Arg, cb apientry.HandlerCBFunc) {
 	ns := node.NSOf(ctx)
-	interpret(ns, svcIndex(ns.Name), a.Script, a.C, cb)
+	interpret(ns, svcIndex(ns.Name), a.Script, a.C, cb, ctx.Session)
 }
 
 // GateRemote is the service-to-service entry of the front: rpc.nap makes the
@@ -298,9 +330,10 @@ type world struct {
 	clients []cli
 	open    []bool
 	bound   []int
+	extra   []net.Conn // client ends of the unobserved connections
 }
 
-func (w *world) reset(nc int, slow bool) string {
+func (w *world) reset(nc int, slow bool, extra int) string {
 	if len(w.clients) > 0 {
 		w.n.Advance(2 * time.Second)
 	}
@@ -309,6 +342,10 @@ func (w *world) reset(nc int, slow bool) string {
 			c.Close()
 		}
 	}
+	for _, e := range w.extra {
+		e.Close()
+	}
+	w.extra = nil
 	if len(w.clients) > 0 {
 		w.n.Advance(50 * time.Millisecond)
 	}
@@ -320,6 +357,7 @@ func (w *world) reset(nc int, slow bool) string {
 		w.n.TakeLog(wn)
 	}
 	cs.nets = nil
+	cs.bcast = nil
 	cs.ctr = map[[3]int]int{}
 	cs.nextThr = [8]int{}
 	cs.workers = nil
@@ -342,8 +380,53 @@ func (w *world) reset(nc int, slow bool) string {
 		w.bound = append(w.bound, 0)
 		nets = append(nets, c.NetId())
 	}
+	// unobserved connections: real sessions of the front that nobody reads (no handshake needed to be pushed to)
+	var xs []uint32
+	var sesss []*session.ClientSession
+	if extra > 0 {
+		ns := w.n.Service("gate-1")
+		for i := 0; i < extra; i++ {
+			srvEnd, cliEnd := net.Pipe()
+			cfg := session.NewSessionConfig(nil)
+			cfg.Impl = pomelo.NewSessionsImpl(ns.GetRunService().GetScheduler(), w.n.Sessions("gate-1"))
+			sess := session.NewClientSession(&pipeConn{Conn: srvEnd}, cfg)
+			sess.Handle()
+			w.extra = append(w.extra, cliEnd)
+			sesss = append(sesss, sess)
+			if i%32 == 31 {
+				synctest.Wait()
+			}
+		}
+		synctest.Wait()
+		for _, se := range sesss {
+			xs = append(xs, se.GetId())
+		}
+	}
+	// broadcast list: client 0, extras..., client 1 at #256, client 2 at #257, extras..., last client last
+	var bl []uint32
+	if extra > 0 {
+		bl = append(bl, nets[0])
+		xi := 0
+		mid := nets[1 : len(nets)-1]
+		if len(nets) == 1 {
+			mid = nil
+		}
+		for len(bl) < 255 && xi < len(xs) {
+			bl = append(bl, xs[xi])
+			xi++
+		}
+		bl = append(bl, mid...)
+		for xi < len(xs) {
+			bl = append(bl, xs[xi])
+			xi++
+		}
+		if len(nets) > 1 {
+			bl = append(bl, nets[len(nets)-1])
+		}
+	}
 	cs.mu.Lock()
 	cs.nets = nets
+	cs.bcast = bl
 	cs.mu.Unlock()
 	return fmt.Sprintf("ok n=%d", nc)
 }
@@ -427,7 +510,11 @@ func (w *world) exec(op string) string {
 		if nc < 1 || nc > 8 {
 			return "bad-op"
 		}
-		return w.reset(nc, hx.KVInt(ws, "slow") == 1)
+		extra := hx.KVInt(ws, "extra")
+		if extra > 400 {
+			return "bad-op"
+		}
+		return w.reset(nc, hx.KVInt(ws, "slow") == 1, extra)
 	case "fault":
 		ci := hx.KVInt(ws, "c")
 		if ci >= len(w.clients) || !w.open[ci] {
@@ -492,7 +579,7 @@ func (w *world) exec(op string) string {
 		return w.collect()
 	case "go":
 		ms := hx.KVInt(ws, "ms")
-		if ms < 1 || ms > 5000 {
+		if ms < 1 || ms > 40000 {
 			return "bad-op"
 		}
 		w.n.Advance(time.Duration(ms) * time.Millisecond)
